@@ -38,7 +38,8 @@ func (cp *CachedPlanner) WithPlannerExecutor(e Planner) *CachedPlanner {
 }
 
 func (cp *CachedPlanner) hash(ctx *PlanningContext) hashKey {
-	s := format.NewBufferedFormatter().FormatSelectionSet(ctx.Operation.SelectionSet)
+	// the operation type is part of the key: `{ x }` and `mutation { x }` print the same selection set
+	s := string(ctx.Operation.Operation) + " " + format.NewBufferedFormatter().FormatSelectionSet(ctx.Operation.SelectionSet)
 	sha1 := sha1.Sum([]byte(s))
 	return sha1
 }
